@@ -106,6 +106,9 @@ pub struct Oracle {
     /// (number of granted vote responses so far, voter of the latest) - event anchor for CrashOnGrant
     pub grant_signal: Option<tokio::sync::watch::Sender<(u64, u32)>>,
     pub grant_count: u64,
+    /// (number of Leader transitions so far, node of the latest) - event anchor for IsolateNewLeader
+    pub leader_signal: Option<tokio::sync::watch::Sender<(u64, u32)>>,
+    pub leader_transitions: u64,
     /// highest index in the commit ledger
     pub max_committed: u64,
     /// node -> purge cutoffs issued (virtual ms, cutoff)
@@ -342,6 +345,10 @@ impl Oracle {
             // AppendEntries for it (recorded separately at the transport seam).
             self.acts_as_leader(node, term, "became_leader");
             self.probe("became_leader");
+            self.leader_transitions += 1;
+            if let Some(tx) = &self.leader_signal {
+                let _ = tx.send((self.leader_transitions, node));
+            }
         }
         if role == ROLE_LEADER && prev.role == ROLE_LEADER && prev.term != term {
             self.probe("leader_term_bump_before_stepdown");
